@@ -55,7 +55,7 @@ func init() {
 	})
 	register(&Rule{
 		ID:    "C16.xyonly",
-		Props: []string{"C16", "C13"},
+		Props: []string{"C16", "C13", "C14"},
 		Doc:   "operations defined on XY only return XY geometries: no return value of convexHull/ConvexHull, Centroid, PointOnSurface is the receiver/argument itself or derived from it only through coordinate-type-preserving methods (it must pass through Force2D / be rebuilt from XY values)",
 		Floor: 10,
 		Run:   runC16XYOnly,
@@ -865,6 +865,42 @@ func keepsCtype(v, x ssa.Value, depth int) bool {
 					return keepsCtype(st, x, depth+1)
 				}
 			}
+			if !geomTypeNames[namedName(y.Type())] {
+				return false
+			}
+			// a member read straight out of the operand's own lists (m.points[0])
+			switch y.X.(type) {
+			case *ssa.IndexAddr, *ssa.FieldAddr:
+				addr := y.X
+				var base ssa.Value
+				for hops := 0; hops < 4; hops++ {
+					base, _ = baseObject(addr)
+					ia, isIdx := base.(*ssa.IndexAddr)
+					if !isIdx {
+						break
+					}
+					addr = ia.X
+				}
+				if base == x {
+					return true
+				}
+				if a, ok := base.(*ssa.Alloc); ok {
+					if st := uniqueStore(a); st != nil && (st == x || sameValue(st, x)) {
+						return true
+					}
+				}
+			}
+			// a geometry kept in a field of a local accumulator (nearest.point): what
+			// this function or the accumulator's own methods store there
+			if fa, ok := y.X.(*ssa.FieldAddr); ok {
+				if a, ok := fa.X.(*ssa.Alloc); ok {
+					for _, sv := range accumulatedInto(a, fa.Field) {
+						if keepsCtype(sv, x, depth+1) {
+							return true
+						}
+					}
+				}
+			}
 		}
 	case *ssa.Extract:
 		return keepsCtype(y.Tuple, x, depth+1)
@@ -876,6 +912,52 @@ func keepsCtype(v, x ssa.Value, depth int) bool {
 		}
 	}
 	return false
+}
+
+// accumulatedInto lists the caller-side values that can end up in field #field of the local
+// struct a: values stored there directly, and arguments of calls of the struct's own
+// pointer-receiver methods that store one of their parameters (or something that keeps its
+// coordinates type) into that field of their receiver.
+func accumulatedInto(a *ssa.Alloc, field int) []ssa.Value {
+	var out []ssa.Value
+	for _, r := range *a.Referrers() {
+		switch u := r.(type) {
+		case *ssa.FieldAddr:
+			if u.Field != field {
+				continue
+			}
+			for _, rr := range *u.Referrers() {
+				if st, ok := rr.(*ssa.Store); ok && st.Addr == ssa.Value(u) {
+					out = append(out, st.Val)
+				}
+			}
+		case *ssa.Call:
+			cal := staticCallee(u)
+			if cal == nil || cal.Blocks == nil || len(u.Call.Args) == 0 || u.Call.Args[0] != ssa.Value(a) || len(cal.Params) == 0 {
+				continue
+			}
+			recv := cal.Params[0]
+			eachInstr(cal, func(in ssa.Instruction) {
+				st, ok := in.(*ssa.Store)
+				if !ok {
+					return
+				}
+				fa, ok := st.Addr.(*ssa.FieldAddr)
+				if !ok || fa.X != ssa.Value(recv) || fa.Field != field {
+					return
+				}
+				for j, par := range cal.Params {
+					if j == 0 || j >= len(u.Call.Args) {
+						continue
+					}
+					if keepsCtype(st.Val, par, 0) {
+						out = append(out, u.Call.Args[j])
+					}
+				}
+			})
+		}
+	}
+	return out
 }
 
 func runC16XYOnly(c *Ctx) {
